@@ -64,7 +64,9 @@ func process1MapMerge(obj map[string]any, mergeFrom *Document, mergeFromDocs []*
 		return nil, err
 	}
 
-	next, err := mergeMap(obj, in)
+	// Merge a copy so that the referenced subtree is never aliased into (or
+	// modified through) its host.
+	next, err := mergeMap(obj, cloneValue(in))
 	if err != nil {
 		return nil, err
 	}
@@ -78,7 +80,7 @@ func process1MapReplace(obj map[string]any, mergeFrom *Document, mergeFromDocs [
 		return nil, err
 	}
 
-	return process1(next, mergeFrom, mergeFromDocs, depth)
+	return process1(cloneValue(next), mergeFrom, mergeFromDocs, depth)
 }
 
 func process1List(obj []any, mergeFrom *Document, mergeFromDocs []*Document, depth int) (any, error) {
@@ -139,7 +141,7 @@ func process1ListMerge(obj []any, mergeFrom *Document, mergeFromDocs []*Document
 		return nil, err
 	}
 
-	return mergeList(obj, in)
+	return mergeList(obj, cloneValue(in))
 }
 
 func process1ListReplace(obj []any, mergeFrom *Document, mergeFromDocs []*Document, m any, depth int) (any, error) {
@@ -148,7 +150,7 @@ func process1ListReplace(obj []any, mergeFrom *Document, mergeFromDocs []*Docume
 		return nil, err
 	}
 
-	return process1(next, mergeFrom, mergeFromDocs, depth)
+	return process1(cloneValue(next), mergeFrom, mergeFromDocs, depth)
 }
 
 func process1String(obj string, mergeFrom *Document, mergeFromDocs []*Document, depth int) (any, error) {
@@ -171,7 +173,7 @@ func process1StringMerge(obj string, mergeFrom *Document, mergeFromDocs []*Docum
 		return nil, err
 	}
 
-	return process1(in, mergeFrom, mergeFromDocs, depth)
+	return process1(cloneValue(in), mergeFrom, mergeFromDocs, depth)
 }
 
 func process1StringReplace(obj string, mergeFrom *Document, mergeFromDocs []*Document, depth int) (any, error) {
@@ -182,5 +184,5 @@ func process1StringReplace(obj string, mergeFrom *Document, mergeFromDocs []*Doc
 		return nil, err
 	}
 
-	return process1(in, mergeFrom, mergeFromDocs, depth)
+	return process1(cloneValue(in), mergeFrom, mergeFromDocs, depth)
 }
